@@ -22,7 +22,25 @@ func init() {
 // Letters are 1 px wide; {Cn} control codes are n px wide; é is a 1 px letter.
 func fmtWord(i, w int, variant int) string {
 	letter := string(rune('a' + i%20))
-	switch variant % 7 {
+	switch variant % 11 {
+	case 7:
+		// two control codes glued together: one word that begins and ends with a code but is not one code
+		if w == 2 {
+			return "{C1}{C1}"
+		}
+		if w == 3 {
+			return []string{"{C1}{C2}", "{C2}{C1}", "{C1}" + letter + "{C1}"}[i%3]
+		}
+		if w >= 4 {
+			return "{C1}" + strings.Repeat(letter, w-3) + "{C2}"
+		}
+	case 8:
+		// characters and codes whose width in the table is 0 (the font has a non-zero "default" too)
+		return []string{strings.Repeat(letter, w) + "{Z}", "^" + strings.Repeat(letter, w), strings.Repeat(letter, w) + "^^"}[i%3]
+	case 9:
+		if w >= 2 {
+			return letter + "{Z}" + strings.Repeat(letter, w-1)
+		}
 	case 5:
 		// white space that is not the blank: part of the word (1 px each in the tables)
 		if w >= 3 {
@@ -54,10 +72,21 @@ func fmtWord(i, w int, variant int) string {
 	return strings.Repeat(letter, w)
 }
 
+// fmtInt writes a number as the language allows it: decimal, or hex in either case
+func fmtInt(r *Rand, v int) string {
+	switch r.Intn(4) {
+	case 0:
+		return fmt.Sprintf("0x%x", v)
+	case 1:
+		return fmt.Sprintf("0x%X", v)
+	}
+	return fmt.Sprint(v)
+}
+
 var fmtCodes = map[int]string{4: `\n`, 5: `\l`, 6: `\p`, 7: `\N`}
 
 func fmtFont(sp int) parser.Fonts {
-	w := map[string]int{" ": sp, "é": 1, "}": 1, "{C1}": 1, "{C2}": 2, "{C S}": 2, "{C  S}": 2, "\u00a0": 1, "\u3000": 1, "\t": 1, "default": 1}
+	w := map[string]int{" ": sp, "é": 1, "}": 1, "{C1}": 1, "{C2}": 2, "{C S}": 2, "{C  S}": 2, "\u00a0": 1, "\u3000": 1, "\t": 1, "default": 1, "{Z}": 0, "^": 0}
 	for ch := 'a'; ch <= 'z'; ch++ {
 		w[string(ch)] = 1
 	}
@@ -340,7 +369,7 @@ func checkC07(c *Ctx) {
 			}
 		case 2:
 			max = 3 + r.Intn(4)
-			args = append(args, fmt.Sprint(max))
+			args = append(args, fmtInt(r, max))
 			if r.Chance(1, 2) {
 				font = r.Pick([]string{"A", "B"})
 				args = append(args, `"`+font+`"`)
@@ -358,14 +387,14 @@ func checkC07(c *Ctx) {
 			case 1:
 				if max == 0 {
 					max = 3 + r.Intn(4)
-					args = append(args, fmt.Sprintf("maxLineLength=%d", max))
+					args = append(args, "maxLineLength="+fmtInt(r, max))
 				}
 			case 2:
 				nl = 1 + r.Intn(3)
-				args = append(args, fmt.Sprintf("numLines=%d", nl))
+				args = append(args, "numLines="+fmtInt(r, nl))
 			case 3:
 				ov = 1 + r.Intn(2)
-				args = append(args, fmt.Sprintf("cursorOverlapWidth=%d", ov))
+				args = append(args, "cursorOverlapWidth="+fmtInt(r, ov))
 			}
 		}
 		// effective parameters by the documented precedence: explicit, then option, then font config
